@@ -96,6 +96,26 @@ def genOrdered (no : NullOrdering) (sup : Option Bool) (o : Ordered) : List OutK
   else
     [⟨.expr, o.desc, changeToNulls ch⟩]
 
+/-- what kind of expression the sort key is.  `Generator.ordered_sql` must NOT consult it (outside the simulation
+    branch's integer-literal / RAND() special cases, which are not in the fragment): a comparison, LIKE, IN, BETWEEN,
+    arithmetic or CASE key over nullable operands can be NULL exactly like a column -/
+inductive KeyKind where
+  | column | comparison | like | inList | between | arithmetic | caseExpr | function | isNullTest | notPred
+  deriving DecidableEq, Repr
+
+def allKeyKinds : List KeyKind :=
+  [.column, .comparison, .like, .inList, .between, .arithmetic, .caseExpr, .function, .isNullTest, .notPred]
+
+/-- the generator's decision with the key kind as an explicit (ignored) argument — the correspondence harness
+    enumerates this argument against the real generator -/
+def genOrderedFor (_kind : KeyKind) (no : NullOrdering) (sup : Option Bool) (o : Ordered) : List OutKey :=
+  genOrdered no sup o
+
+/-- a 3-valued predicate used as a sort key -/
+def b3Val : B3 → Val
+  | none => .null
+  | some b => .bool b
+
 /-- ASSUMPTION A-engine (validated): NULL placement without a NULLS clause for an engine of the given class -/
 def defaultNullsFirst (no : NullOrdering) (desc : Bool) : Bool :=
   match no with
@@ -324,6 +344,21 @@ def limitSem : LimitForm → Table → Table
   | .limitOffset n o => limitOffset (some n) o
   | .comma o n => limitOffset (some n) o
   | .offsetOnly o => limitOffset none o
+
+-- ------------------------------------------------------------------------------------------ `||` tier glue
+/-- SQLiteParser._parse_factor_operand: SQLite's `||` tier binds tighter than every arithmetic / bitwise operator,
+    elsewhere it binds looser, so a `||` chain that is an operand of such an operator (token before it or after it
+    in ARITHMETIC_TOKENS) is captured as an explicit Paren.  `arith` = SQLiteParser.ARITHMETIC_TOKENS (token names). -/
+def dpipeNeedsParen (arith : List String) (prevTok nextTok : Option String) (parsedOp : Bool) : Bool :=
+  parsedOp && ((match prevTok with | some t => arith.contains t | none => false) ||
+               (match nextTok with | some t => arith.contains t | none => false))
+
+/-- shape of `a OP b || c` (dpipeRight = true) or `a || b OP c` (false) as the SQLite parser builds it -/
+def dpipeGlueShape (arith : List String) (tok : String) (dpipeRight : Bool) : String :=
+  if dpipeRight then
+    (if dpipeNeedsParen arith (some tok) none true then "op(a,paren(dpipe(b,c)))" else "op(a,dpipe(b,c))")
+  else
+    (if dpipeNeedsParen arith none (some tok) true then "op(paren(dpipe(a,b)),c)" else "op(dpipe(a,b),c)")
 
 -- ------------------------------------------------------------------------------------------ rewrites (transforms.py)
 /-- `eliminate_semi_and_anti_joins`: `l SEMI JOIN r ON c`  ->  `l WHERE EXISTS (SELECT 1 FROM r WHERE c)` -/
